@@ -234,6 +234,83 @@ pub fn psblend_driver(data: &[u8], _ctx: &[Vec<u8>], _a: [u32; 3], w: &mut Walke
     }
 }
 
+/// FDSelect range specification: (first glyph, fd) pairs + sentinel (None = the table is cut before it)
+pub type FdRanges = (Vec<(u32, u16)>, Option<u32>);
+
+pub fn fdselect3(r: &FdRanges) -> Vec<u8> {
+    let mut v = vec![3u8];
+    be16(&mut v, r.0.len() as u16);
+    for (first, fd) in &r.0 {
+        be16(&mut v, *first as u16);
+        v.push(*fd as u8);
+    }
+    if let Some(s) = r.1 {
+        be16(&mut v, s as u16);
+    }
+    v
+}
+pub fn fdselect4(r: &FdRanges) -> Vec<u8> {
+    let mut v = vec![4u8];
+    be32(&mut v, r.0.len() as u32);
+    for (first, fd) in &r.0 {
+        be32(&mut v, *first);
+        be16(&mut v, *fd);
+    }
+    if let Some(s) = r.1 {
+        be32(&mut v, s);
+    }
+    v
+}
+
+/// the range family shared with C20's font-level FDSelect family
+pub fn fdselect_family() -> Vec<(String, FdRanges)> {
+    let mut out = vec![];
+    for n in 0..=2usize {
+        for first in 0..=2u32 {
+            for (fl, fds) in [("fd-in-range", [0u16, 1]), ("fd-out-of-range", [1, 200])] {
+                for (sl, sentinel) in [("ok", Some(6u32)), ("small", Some(first)), ("missing", None)] {
+                    if n == 0 && first > 0 {
+                        continue;
+                    }
+                    let ranges: Vec<(u32, u16)> = (0..n).map(|k| (first + 2 * k as u32, fds[k])).collect();
+                    out.push((format!("ranges={n},first={first},{fl},sentinel-{sl}"), (ranges, sentinel)));
+                }
+            }
+        }
+    }
+    out
+}
+
+/// data = one FDSelect encoding, ctx[0] = the same ranges in the other range format (3 <-> 4), or nothing.
+/// Queries `font_index` for every small glyph id and the boundaries; when both encodings read, they must agree.
+pub fn fdselect_driver(data: &[u8], ctx: &[Vec<u8>], _a: [u32; 3], w: &mut Walker) {
+    use read_fonts::tables::postscript::FdSelect;
+    use read_fonts::types::GlyphId;
+    let a = FdSelect::read(FontData::new(data));
+    let b = ctx.first().map(|c| FdSelect::read(FontData::new(c)));
+    let gids: Vec<u32> = (0..=12).chain([0xFFFE, 0xFFFF, 0x10000, 0xFF_FFFF, u32::MAX - 1, u32::MAX]).collect();
+    match &a {
+        Ok(sel) => {
+            for g in &gids {
+                w.opt_u(sel.font_index(GlyphId::new(*g)).map(|v| v as u64));
+            }
+        }
+        Err(e) => rerr(w, e),
+    }
+    if let (Ok(x), Some(Ok(y))) = (&a, &b) {
+        for g in &gids {
+            let (fx, fy) = (x.font_index(GlyphId::new(*g)), y.font_index(GlyphId::new(*g)));
+            w.calls += 1;
+            if fx != fy {
+                crate::drivers::report_disagreement(
+                    "FdSelect Format3 vs Format4 font_index",
+                    format!("glyph {g}: {fx:?} from {} but {fy:?} from {}", vcore::hex(data), vcore::hex(&ctx[0])),
+                );
+            }
+        }
+    }
+}
+
 fn seed(name: String, ty: Option<usize>, driver: &str, dargs: [u32; 3], data: Vec<u8>, ctx: Vec<Vec<u8>>) -> Seed {
     let n = data.len();
     Seed {
@@ -346,6 +423,17 @@ pub fn capsweep_seeds(out: &mut Vec<Seed>) {
                 vec![],
             ));
         }
+    }
+    // FDSelect: the same ranges as format 3 and format 4 (agreement), plus format 0 arrays
+    let fd_ty = crate::registry::find("postscript::FdSelect");
+    for (label, r) in fdselect_family() {
+        out.push(seed(format!("synth:cap/fdselect3-{label}"), fd_ty, "fdselect", [0; 3], fdselect3(&r), vec![fdselect4(&r)]));
+        out.push(seed(format!("synth:cap/fdselect4-{label}"), fd_ty, "fdselect", [0; 3], fdselect4(&r), vec![fdselect3(&r)]));
+    }
+    for n in [0usize, 1, 2, 6] {
+        let mut f0 = vec![0u8];
+        f0.extend((0..n).map(|i| (i % 3) as u8));
+        out.push(seed(format!("synth:cap/fdselect0-glyphs={n}"), fd_ty, "fdselect", [0; 3], f0, vec![]));
     }
     // avar 2 coordinate buffer: 64 axes
     let fvar_ty = crate::registry::find("fvar::Fvar");
